@@ -245,14 +245,23 @@ func checkGate(r *Report, gi *gateInfo) *ssa.Function {
 	P := r.P
 	fn := gi.fn
 	key := shortFn(fn)
-	paths := P.allPaths(fn)
+	// deep paths: a gate that hands its verdict through from a shared body
+	// (two gates merged into one function driven by a constant flag) is judged
+	// on that body's paths with the wrapper's arguments substituted
+	paths := P.deepPaths(fn)
 	r.paths += len(paths)
 	var accessor *ssa.Function
 	// the accessor: in-package callee returning (Algorithm, error) applied to *$0.Protected
-	for _, ci := range callsIn(fn, nil) {
-		c := ci.Common().StaticCallee()
-		if c != nil && P.inPkg(c) && c.Signature.Results().Len() == 2 && isNamed(c.Signature.Results().At(0).Type(), cosePath, "Algorithm") {
-			accessor = c
+	scan := []*ssa.Function{fn}
+	for _, p := range paths {
+		scan = append(scan, p.via...)
+	}
+	for _, sf := range uniqFuncs(scan) {
+		for _, ci := range callsIn(sf, nil) {
+			c := ci.Common().StaticCallee()
+			if c != nil && P.inPkg(c) && c.Signature.Results().Len() == 2 && isNamed(c.Signature.Results().At(0).Type(), cosePath, "Algorithm") {
+				accessor = c
+			}
 		}
 	}
 	if accessor == nil {
@@ -363,7 +372,28 @@ func checkGate(r *Report, gi *gateInfo) *ssa.Function {
 		for _, w := range s.writes {
 			ws = append(ws, w.loc().String())
 		}
-		o.check(len(s.writes) == 0, "empty write set", "verify gate writes "+strings.Join(ws, ", "))
+		okW := len(s.writes) == 0
+		if !okW {
+			// the summary is not path-sensitive: when the gate is loop-free,
+			// the writes along each of its feasible deep paths decide
+			loopFree := len(findLoops(fn)) == 0
+			for _, p := range paths {
+				for _, v := range p.via {
+					if len(findLoops(v)) > 0 {
+						loopFree = false
+					}
+				}
+			}
+			if loopFree {
+				okW = true
+				for _, p := range paths {
+					if p.feasible() && len(pathWrites(P, p)) > 0 {
+						okW = false
+					}
+				}
+			}
+		}
+		o.check(okW, "no write on any feasible path", "verify gate writes "+strings.Join(ws, ", "))
 	}
 	// other accessor errors are returned: exits with aerr != nil and aerr != NotFound return aerr
 	for _, x := range P.factsOf(fn).exits {
@@ -390,7 +420,7 @@ func pathID(p *Path) string {
 // pathWrites: non-fresh writes executed along the path.
 func pathWrites(P *Prog, p *Path) []string {
 	var out []string
-	p.instrs(func(in ssa.Instruction) {
+	p.instrsDeep(func(in ssa.Instruction, _ *termEngine, _ map[string]*Term) {
 		for _, l := range writesOf(P, in) {
 			out = append(out, l.String())
 		}
@@ -404,7 +434,22 @@ func pathWrites(P *Prog, p *Path) []string {
 func injectionOK(P *Prog, p *Path) string {
 	put := false
 	why := ""
-	p.instrs(func(in ssa.Instruction) {
+	p.instrsDeep(func(in ssa.Instruction, eng *termEngine, m map[string]*Term) {
+		// terms of a helper segment are read in the gate's own frame
+		inRoot := func(t *Term) *Term {
+			if m == nil {
+				return t
+			}
+			return t.subst(m)
+		}
+		if m != nil {
+			// the helper's receiver is the gate's own Headers
+			if r0, ok := m["0"]; !ok || r0.String() != "$0" {
+				for range writesOf(P, in) {
+					why = "a helper working on " + fmt.Sprint(m["0"]) + " writes"
+				}
+			}
+		}
 		switch in := in.(type) {
 		case *ssa.Store:
 			for _, l := range writesOf(P, in) {
@@ -412,7 +457,7 @@ func injectionOK(P *Prog, p *Path) string {
 					why = "unexpected store to " + l.String()
 				}
 			}
-			if v := p.eng.of(in.Val); len(writesOf(P, in)) > 0 && v.Op != "makemap" {
+			if v := eng.of(in.Val); len(writesOf(P, in)) > 0 && v.Op != "makemap" {
 				why = "Protected is replaced by " + v.String() + ", not a fresh map"
 			}
 		case *ssa.MapUpdate:
@@ -446,13 +491,13 @@ func injectionOK(P *Prog, p *Path) string {
 				return
 			}
 			args := in.Common().Args
-			cur := p.eng.loadPath(in.Parent().Params[0], []string{"Protected"}, in)
-			if !p.eng.of(args[0]).eq(cur) {
-				why = "alg is inserted into " + p.eng.of(args[0]).String() + " which is not the current protected map " + cur.String()
+			cur := eng.loadPath(in.Parent().Params[0], []string{"Protected"}, in)
+			if !eng.of(args[0]).eq(cur) {
+				why = "alg is inserted into " + eng.of(args[0]).String() + " which is not the current protected map " + cur.String()
 				return
 			}
-			if p.eng.of(args[1]).String() != "$1" {
-				why = "inserted value is " + p.eng.of(args[1]).String() + ", not the gate's alg parameter"
+			if inRoot(eng.of(args[1])).String() != "$1" {
+				why = "inserted value is " + inRoot(eng.of(args[1])).String() + ", not the gate's alg parameter"
 				return
 			}
 			put = true
